@@ -39,7 +39,7 @@ def _doc():
 def strategy(tier):
     p = G.Profile(doc=_doc(), max_items=6 if tier == "quick" else 10, depth=3 if tier == "quick" else 4,
                   kinds={"func", "parseargs", "block", "generic", "set", "class", "member", "test", "section"},
-                  dangling=False, groups=False)
+                  dangling=False, groups=False, impl_doc=True, nest_all=True)
     return st.fixed_dictionaries({
         "module": G.module(p), "layout": G.layout_choices(24),
         "settings": st.fixed_dictionaries({
